@@ -68,12 +68,6 @@ def sig_dq(c, i, m, rec, p):
     return c[7] == "1" and p.startswith("fail:dq:")
 
 
-def sig_nested(c, i, m, rec, p):
-    """two holding (join) actions in the chain and the violation is a later event overtaking the trigger"""
-    chain = c[10].split(",")
-    return sum(1 for a in chain if a.startswith("j")) >= 2 and (p.startswith("fail:passed:") or p.startswith("fail:order:"))
-
-
 def shrink(case):
     """candidates with fewer events: drop halves, then single events (a case is `cmd 12 params nev (src stream spec)*`)"""
     t = case.split()
@@ -94,7 +88,7 @@ CFG = {
     "shrink": shrink,
     "shrink_budget": 80,
     "manifest": {
-        "text": "Proof: on the Lean model M1 of the commit path, commits_in_read_order_partial (commit notifications of a stream strictly increase in read order), commit_offsets_increase, no_double_finish (no event committed or dropped twice) and conservation (once idle, accepted = commits + drops, each exactly once) hold for every op list without a dead queue; with a dead queue the order clause is refuted by a proved counterexample (known finding). The hand-over discipline the stream layer M2 assumes of the processor is itself proved of a model of processor.go (M3: dischargeStream / processEvent / doActions / Propagate / Spawn with plain, join-like and split-like actions): processor_obeys_discipline_partial for every chain with at most one holding action, every input sequence, time-out placement and call depth; with two holders it is refuted (processor_discipline_counterexample_two_holders, the nested-Propagate known finding). Tie: boundary traces of the real pipeline replayed through M1 and M2; M3 predicts, from the case alone, every processor-side operation (hold, drop, propagate, out) of every stream and is compared with the trace (c02.run, c02.proc, and the C01 / c04.run cases); the Spec oracle (order, once, nothing lost when idle) is evaluated on the trace itself.",
+        "text": "Proof: on the Lean model M1 of the commit path, commits_in_read_order_partial (commit notifications of a stream strictly increase in read order), commit_offsets_increase, no_double_finish (no event committed or dropped twice) and conservation (once idle, accepted = commits + drops, each exactly once) hold for every op list without a dead queue; with a dead queue the order clause is refuted by a proved counterexample (known finding). The hand-over discipline the stream layer M2 assumes of the processor is itself proved of a model of processor.go (M3: dischargeStream / processEvent / doActions / Propagate / Spawn with plain, join-like and split-like actions): processor_obeys_discipline_partial for every chain with at most one holding action, every input sequence, time-out placement and call depth; the full statement is refuted only by a plain action breaking upstream of a busy holder (processor_discipline_counterexample_break_upstream); the nested-Propagate defect the first model exhibited for two holders was repaired (fix: processor.Propagate). Tie: boundary traces of the real pipeline replayed through M1 and M2; M3 predicts, from the case alone, every processor-side operation (hold, drop, propagate, out) of every stream and is compared with the trace (c02.run, c02.proc, and the C01 / c04.run cases); the Spec oracle (order, once, nothing lost when idle) is evaluated on the trace itself.",
         "note": "Trusted: Lean kernel + standard axioms; fdmodel compilation; harness and trace hooks (verif tag). Assumed: Go mutex/cond/channel semantics; 'finished' = send returned nil or the error callback was invoked after the configured retries. The hand-over order guard of `add` is the interface to the stream/processor layer (checked on every trace; proved from the stream protocol in M2 where available). Not modelled: do_if conditions of actions, several busy-capable actions in one chain (outside the proved part), collapse-only plugins (parse_es, k8s multiline) as holders.",
         "technique": "Lean 4 proof (inductive invariant over op lists) + trace correspondence on the real pipeline",
     },
@@ -109,7 +103,7 @@ CFG = {
     "widen_cases": 200,
     "nontrivial": nontrivial,
     "classify": classify,
-    "signatures": {"dq_routed": sig_dq, "nested_hold": sig_nested},
+    "signatures": {"dq_routed": sig_dq},
     "rule": "c02.proc: single-stream, single-processor runs with breaks and discards anywhere in the chain, closed by two flushing events (M3 prediction only, no order oracle); c02.run: random pipeline configurations (procs 1/2/4/8, capacity 1..64, both pools, batch 1..4, workers 1..3, retries 0..2, failure patterns, optional dead queue, chains of scripted verdict actions and the real join plugin, 1-3 sources x 1-3 streams, 3-40 events) with PRNG jitter in actions / output / feeders; distinct = distinct case line; non-trivial = at least one commit and (a multi-event batch, a failed send or a drop)",
     "corr_name": "Core.step? accepts the boundary trace of the real pipeline (M1 ops: put, drop, add, seal, send, giveup, batch commit, commit)",
     "trusted_base": ["trace points in /repo/pipeline (stream.go, streamer.go, processor.go, pipeline.go, batch.go) log inside the lock that serialises the step",
